@@ -184,8 +184,10 @@ def gen_stream(r):
     # the selector true (`not (...)`, `... or name(r) == ...`) - such records have to come out
     # ... or inside a generator expression (a nested code object for the compiled engine), alone or next to a
     # condition on a field every record has
+    # ... or next to the bare field as a guard (`r.x and r.x >= 3`): for a record lacking the field the selector's VALUE
+    # is then the falsy missing-field sentinel rather than a literal False - the record must still be filtered out
     ctx = r.weighted([(5, "bare"), (2, "not"), (2, "or_name"), (1, "and_has"), (1, "any_gen"), (1, "idx_and_any"),
-                      (1, "all_gen")])
+                      (1, "all_gen"), (1, "guard_and"), (1, "or_guard"), (1, "not_and_guard")])
     if op in ("in", "not in"):
         ctx = "bare"      # the recorded compiled-engine findings on membership would surface inverted under `not`
     lacks_name = nm("lacks")
@@ -193,7 +195,9 @@ def gen_stream(r):
            "and_has": f"has_field(r, 'x') and ({cmp_src})",
            "any_gen": f"any(({cmp_src}) for i in (1,))",
            "idx_and_any": f"r.idx >= 0 and any(({cmp_src}) for i in (1, 2))",
-           "all_gen": f"all(({cmp_src}) for i in (1, 2))"}[ctx]
+           "all_gen": f"all(({cmp_src}) for i in (1, 2))",
+           "guard_and": f"r.x and ({cmp_src})", "or_guard": f"({cmp_src}) or r.x",
+           "not_and_guard": f"not ({cmp_src}) and r.x"}[ctx]
     return {"kind": "stream", "engine": engine, "op": op, "pos": pos, "src": src, "cmp": cmp_src, "ctx": ctx,
             "lacks_name": lacks_name, "via": via, "sources": sources}
 
@@ -257,6 +261,11 @@ def reference_keep(src, rec, ctx="bare", lacks_name=None):
         return c or rec._desc.name == lacks_name
     if ctx == "and_has":
         return ("x" in rec._desc.fields) and c
+    if ctx in ("guard_and", "or_guard", "not_and_guard"):
+        if not hasattr(rec, "x"):
+            return False              # the guard is the missing field itself: falsy
+        g = bool(rec.x)
+        return {"guard_and": g and c, "or_guard": c or g, "not_and_guard": (not c) and g}[ctx]
     return c
 
 
